@@ -42,7 +42,8 @@ import (
 
 func init() { Register("C11", Domain{Gen: c11Gen, Run: c11Run}) }
 
-const c11StepTimeout = 1500 * time.Millisecond
+// a wait ends on its event; the limit only matters for a request that really hangs (scaled by HX_TIMEOUT_SCALE)
+var c11StepTimeout = HxScale(5 * time.Second)
 
 var c11Cfgs = []string{"m", "pN", "p0"}
 
@@ -415,7 +416,7 @@ func (st *c11State) endCase() {
 	}
 	st.th = map[string]*c11Thread{}
 	st.mu.Unlock()
-	deadline := time.After(time.Second)
+	deadline := time.After(HxScale(3 * time.Second))
 	pending := 0
 	for _, t := range ths {
 		if t.at != "done" {
@@ -433,7 +434,7 @@ func (st *c11State) endCase() {
 		case <-st.done:
 			pending--
 		case <-st.events:
-		case <-time.After(10 * time.Millisecond):
+		case <-time.After(HxScale(10 * time.Millisecond)):
 		case <-deadline:
 			st.leaked = true
 			pending = 0
@@ -509,7 +510,7 @@ func (st *c11State) stress(claimers, records, how int) string {
 	go func() { wg.Wait(); close(fin) }()
 	select {
 	case <-fin:
-	case <-time.After(60 * time.Second):
+	case <-time.After(HxScale(120 * time.Second)):
 		st.dead, st.leaked = true, true
 		return "timeout"
 	}
@@ -602,7 +603,7 @@ func c11Run(in *bufio.Scanner, w *bufio.Writer) {
 			continue
 		}
 		if st.dead {
-			fmt.Fprintln(w, "skip")
+			fmt.Fprintln(w, "err skip")
 			continue
 		}
 		atoi := func(s string) int { n, _ := strconv.Atoi(s); return n }
